@@ -230,6 +230,10 @@ def run(ctx):
                 ("total-inf", dict(weights=[float("inf")] + [1] * (n - 1)), "ValueError"),
                 ("total-nan", dict(weights=[float("nan")] + [1] * (n - 1)), "ValueError"),
                 ("cum-total-inf", dict(cum_weights=list(range(1, n)) + [float("inf")]), "ValueError"),
+                ("cum-longer-leading-zero", dict(cum_weights=[0] + cw), "ValueError"),
+                ("cum-longer-trailing-repeat", dict(cum_weights=cw + [cw[-1]]), "ValueError"),
+                ("weights-longer-leading-zero", dict(weights=[0] + list(w)), "ValueError"),
+                ("weights-longer-trailing-zero", dict(weights=list(w) + [0]), "ValueError"),
             ]
             if n >= 1:
                 malformed.append(("weights-empty", dict(weights=[]), "ValueError"))
